@@ -8,6 +8,7 @@
    validation and the byte-identity runs of the check. *)
 From Coq Require Import List String Bool Arith.
 From KV Require Import Generated.Omp Par ParProofs.
+From KV Require Pipeline CladeTasks TreeSchedule.
 Import ListNotations.
 Local Open Scope string_scope.
 
@@ -97,3 +98,40 @@ Proof.
   - apply (l_seq merge _ _ [] [mkMerge 2 3 5]); [|constructor]. apply (l_par merge _ _ [] []); constructor.
   - apply sh_r. apply sh_l. constructor.
 Qed.
+
+Local Close Scope string_scope.
+Local Open Scope nat_scope.
+
+(* The serial schedule: no merge of two groups starts before both groups are complete.
+   label_internal numbers the internal nodes of the guide tree in post-order from numseq, create_tasks emits one task
+   (a, b, c) per internal node, sort_tasks(TASK_ORDER_TREE) orders them by c.  For EVERY guide tree over distinct
+   leaves: at every position of that serial schedule both operands are complete (an input sequence, or the result of
+   an EARLIER task), the two operands differ, no earlier task has consumed either of them or produced c, and c is a
+   fresh internal label.  (TreeSchedule.v) *)
+Theorem C02_schedule_respects_the_guide_tree : forall t n,
+  NoDup (CladeTasks.leaves t) -> (forall i, In i (CladeTasks.leaves t) -> i < n) ->
+  forall pre a b c post,
+  Pipeline.sort_tasks (Pipeline.tasks_of (fst (Pipeline.label t n))) = (pre ++ (a, b, c) :: post)%list ->
+  (a < n \/ exists a1 a2, In (a1, a2, a) pre) /\
+  (b < n \/ exists b1 b2, In (b1, b2, b) pre) /\
+  a <> b /\ n <= c /\
+  (forall x y z, In (x, y, z) pre -> z <> c /\ x <> a /\ x <> b /\ y <> a /\ y <> b).
+Proof. exact TreeSchedule.tree_schedule_respects_dependencies. Qed.
+Print Assumptions C02_schedule_respects_the_guide_tree.
+
+(* ... and the schedule is complete: one task per internal node (leaves - 1 of them), and every label - input or
+   produced - is consumed exactly once except the root, which is what remains. *)
+Theorem C02_schedule_is_complete : forall t n,
+  NoDup (CladeTasks.leaves t) -> (forall i, In i (CladeTasks.leaves t) -> i < n) ->
+  let L := Pipeline.sort_tasks (Pipeline.tasks_of (fst (Pipeline.label t n))) in
+  List.length L = List.length (CladeTasks.leaves t) - 1 /\
+  Permutation.Permutation (Pipeline.lid (fst (Pipeline.label t n)) :: TreeSchedule.kids L)
+                          (CladeTasks.leaves t ++ map TreeSchedule.tc L)%list.
+Proof. exact TreeSchedule.tree_schedule_is_complete. Qed.
+Print Assumptions C02_schedule_is_complete.
+
+Example C02_schedule_nonvacuous :
+  let t := Pipeline.UNode (Pipeline.UNode (Pipeline.ULeaf 3) (Pipeline.ULeaf 0)) (Pipeline.UNode (Pipeline.ULeaf 2) (Pipeline.UNode (Pipeline.ULeaf 1) (Pipeline.ULeaf 4))) in
+  Pipeline.tasks_of (fst (Pipeline.label t 5)) = [(5, 7, 8); (3, 0, 5); (2, 6, 7); (1, 4, 6)] /\
+  Pipeline.sort_tasks (Pipeline.tasks_of (fst (Pipeline.label t 5))) = [(3, 0, 5); (1, 4, 6); (2, 6, 7); (5, 7, 8)].
+Proof. vm_compute. split; reflexivity. Qed.
